@@ -285,63 +285,74 @@ Proof.
   unfold derive_res. rewrite Hparse. reflexivity.
 Qed.
 
-(* members: two raw fields / variants are interchangeable when they differ only in attributes that get_member_attrs (bark off) does
-   not see *)
-Definition field_equiv (be : backend) (f f' : raw_field) : Prop :=
+(* members: two raw fields / variants are interchangeable when they differ only in attributes that get_member_attrs (for the bark
+   flag the type's attributes produce) does not see *)
+Definition field_equiv (be : backend) (bark : bool) (f f' : raw_field) : Prop :=
   rf_member f = rf_member f' /\ rf_typath f = rf_typath f' /\ rf_ty f = rf_ty f' /\
-  get_member_attrs be (Some (rf_ty f)) (rf_attrs f) false = get_member_attrs be (Some (rf_ty f')) (rf_attrs f') false.
-Definition variant_equiv (be : backend) (v v' : raw_variant) : Prop :=
-  rv_ident v = rv_ident v' /\ rv_shape v = rv_shape v' /\ Forall2 (field_equiv be) (rv_fields v) (rv_fields v') /\
-  get_member_attrs be None (rv_attrs v) false = get_member_attrs be None (rv_attrs v') false.
+  get_member_attrs be (Some (rf_ty f)) (rf_attrs f) bark = get_member_attrs be (Some (rf_ty f')) (rf_attrs f') bark.
+Definition variant_equiv (be : backend) (bark : bool) (v v' : raw_variant) : Prop :=
+  rv_ident v = rv_ident v' /\ rv_shape v = rv_shape v' /\ Forall2 (field_equiv be bark) (rv_fields v) (rv_fields v') /\
+  get_member_attrs be None (rv_attrs v) bark = get_member_attrs be None (rv_attrs v') bark.
 
-Lemma fields_from_syn_equiv be : forall fs fs' ctx i,
-    Forall2 (field_equiv be) fs fs' -> fields_from_syn be false ctx i fs = fields_from_syn be false ctx i fs'.
+Lemma fields_from_syn_equiv be bark : forall fs fs' ctx i,
+    Forall2 (field_equiv be bark) fs fs' -> fields_from_syn be bark ctx i fs = fields_from_syn be bark ctx i fs'.
 Proof.
   induction fs as [|f fs IH]; intros fs' ctx i H; inversion H as [|? f' ? fs'' [Hm [Hp [Ht Hg]]] Hr]; subst; [reflexivity|].
   cbn [fields_from_syn]. rewrite Hg, Hm, Hp.
-  destruct (get_member_attrs be (Some (rf_ty f')) (rf_attrs f') false) as [attrs| | |]; cbn [bind]; try reflexivity.
+  destruct (get_member_attrs be (Some (rf_ty f')) (rf_attrs f') bark) as [attrs| | |]; cbn [bind]; try reflexivity.
   destruct (thread_repeat _ _ ctx attrs) as [[ctx' attrs']| | |]; cbn [bind]; try reflexivity.
   rewrite (IH fs'' ctx' (S i) Hr). reflexivity.
 Qed.
 
-Lemma variants_from_syn_equiv be : forall vs vs' vctx fctx,
-    Forall2 (variant_equiv be) vs vs' -> variants_from_syn be false vctx fctx vs = variants_from_syn be false vctx fctx vs'.
+Lemma variants_from_syn_equiv be bark : forall vs vs' vctx fctx,
+    Forall2 (variant_equiv be bark) vs vs' -> variants_from_syn be bark vctx fctx vs = variants_from_syn be bark vctx fctx vs'.
 Proof.
   induction vs as [|v vs IH]; intros vs' vctx fctx H; inversion H as [|? v' ? vs'' [Hi [Hs [Hf Hg]]] Hr]; subst; [reflexivity|].
-  cbn [variants_from_syn]. rewrite (fields_from_syn_equiv be _ _ fctx 0 Hf), Hg, Hi, Hs.
-  destruct (fields_from_syn be false fctx 0 (rv_fields v')) as [[fields fctx1]| | |]; cbn [bind]; try reflexivity.
-  destruct (get_member_attrs be None (rv_attrs v') false) as [attrs| | |]; cbn [bind]; try reflexivity.
+  cbn [variants_from_syn]. rewrite (fields_from_syn_equiv be bark _ _ fctx 0 Hf), Hg, Hi, Hs.
+  destruct (fields_from_syn be bark fctx 0 (rv_fields v')) as [[fields fctx1]| | |]; cbn [bind]; try reflexivity.
+  destruct (get_member_attrs be None (rv_attrs v') bark) as [attrs| | |]; cbn [bind]; try reflexivity.
   destruct (thread_repeat _ _ vctx attrs) as [[vctx' attrs']| | |]; cbn [bind]; try reflexivity.
   rewrite (IH vs'' vctx' _ Hr). reflexivity.
 Qed.
 
-Definition data_equiv (be : backend) (d d' : raw_data) : Prop :=
+Definition data_equiv (be : backend) (bark : bool) (d d' : raw_data) : Prop :=
   match d, d' with
-  | RStruct sh fs, RStruct sh' fs' => sh = sh' /\ Forall2 (field_equiv be) fs fs'
-  | REnum vs, REnum vs' => Forall2 (variant_equiv be) vs vs'
+  | RStruct sh fs, RStruct sh' fs' => sh = sh' /\ Forall2 (field_equiv be bark) fs fs'
+  | REnum vs, REnum vs' => Forall2 (variant_equiv be bark) vs vs'
   | RUnion, RUnion => True
   | _, _ => False
   end.
 Definition with_data (x : raw_input) (d : raw_data) : raw_input :=
   {| ri_ident := ri_ident x; ri_generics := ri_generics x; ri_where := ri_where x; ri_attrs := ri_attrs x; ri_data := d |}.
 
+Lemma field_equiv_refl be bark : forall l, Forall2 (field_equiv be bark) l l.
+Proof. induction l; constructor; [repeat split|assumption]. Qed.
+
+(* members may be exchanged for equivalent ones without changing the outcome of the derive *)
+Theorem equivalent_members_whole_derive : forall be order order_tp x d' attrs bark,
+    get_data_type_attrs be (ri_attrs x) = Ok (attrs, bark) ->
+    data_equiv be bark (ri_data x) d' ->
+    raw_has_none x = false -> raw_has_none (with_data x d') = false ->
+    derive_model be order order_tp x = derive_model be order order_tp (with_data x d').
+Proof.
+  intros be order order_tp x d' attrs bark Hg He Hn Hn'. unfold derive_model. rewrite Hn, Hn'.
+  assert (Hparse : parse_input be x = parse_input be (with_data x d')).
+  { unfold parse_input, with_data. cbn [ri_data]. destruct (ri_data x) as [sh fs|vs|]; destruct d' as [sh' fs'|vs'|]; try contradiction He; [| |reflexivity].
+    - destruct He as [<- Hf]. unfold struct_from_syn. cbn [ri_attrs ri_ident ri_generics ri_where]. rewrite Hg. cbn [bind].
+      rewrite (fields_from_syn_equiv be bark _ _ None 0 Hf). reflexivity.
+    - unfold enum_from_syn. cbn [ri_attrs ri_ident ri_generics ri_where]. rewrite Hg. cbn [bind].
+      rewrite (variants_from_syn_equiv be bark _ _ None None He). reflexivity. }
+  unfold derive_res. rewrite Hparse. reflexivity.
+Qed.
+
 (* with the switch on the type (bark off), members may carry any attributes get_member_attrs does not see - in particular the
    foreign ones of foreign_member_level_attribute_ignored - without changing the outcome of the derive *)
 Theorem switch_whole_derive_members : forall be order order_tp x d' attrs,
     get_data_type_attrs be (ri_attrs x) = Ok (attrs, false) ->
-    data_equiv be (ri_data x) d' ->
+    data_equiv be false (ri_data x) d' ->
     raw_has_none x = false -> raw_has_none (with_data x d') = false ->
     derive_model be order order_tp x = derive_model be order order_tp (with_data x d').
-Proof.
-  intros be order order_tp x d' attrs Hg He Hn Hn'. unfold derive_model. rewrite Hn, Hn'.
-  assert (Hparse : parse_input be x = parse_input be (with_data x d')).
-  { unfold parse_input, with_data. cbn [ri_data]. destruct (ri_data x) as [sh fs|vs|]; destruct d' as [sh' fs'|vs'|]; try contradiction He; [| |reflexivity].
-    - destruct He as [<- Hf]. unfold struct_from_syn. cbn [ri_attrs ri_ident ri_generics ri_where]. rewrite Hg. cbn [bind].
-      rewrite (fields_from_syn_equiv be _ _ None 0 Hf). reflexivity.
-    - unfold enum_from_syn. cbn [ri_attrs ri_ident ri_generics ri_where]. rewrite Hg. cbn [bind].
-      rewrite (variants_from_syn_equiv be _ _ None None He). reflexivity. }
-  unfold derive_res. rewrite Hparse. reflexivity.
-Qed.
+Proof. intros be order order_tp x d' attrs. apply equivalent_members_whole_derive. Qed.
 
 (* the instance the property speaks about: one foreign attribute on one field of a struct *)
 Corollary switch_foreign_attribute_on_a_field : forall be order order_tp x sh fs1 f fs2 pre a post n toks attrs,
@@ -356,9 +367,7 @@ Proof.
   intros be order order_tp x sh fs1 f fs2 pre a post n toks attrs Hd Hf Hg Hp Hin Ht Hn f' Hn'.
   apply (switch_whole_derive_members be order order_tp x _ attrs Hg); [|exact Hn|exact Hn'].
   rewrite Hd. cbn [data_equiv]. split; [reflexivity|].
-  assert (Hrefl : forall l, Forall2 (field_equiv be) l l).
-  { induction l; constructor; [repeat split|assumption]. }
-  apply Forall2_app; [apply Hrefl|]. constructor; [|apply Hrefl].
+  apply Forall2_app; [apply field_equiv_refl|]. constructor; [|apply field_equiv_refl].
   unfold field_equiv, f'. cbn [rf_member rf_typath rf_ty rf_attrs]. repeat split. rewrite Hf.
   exact (foreign_member_level_attribute_ignored be (Some (rf_ty f)) pre a post n toks Hp Hin Ht).
 Qed.
